@@ -150,6 +150,9 @@ type pollCtx struct {
 	err    error
 	open   chan struct{}
 	closed chan struct{}
+	// cancelled from outside after forcedAt polls
+	forced   bool
+	forcedAt int
 }
 
 func newPollCtx(fireAt int, err error) *pollCtx {
@@ -163,10 +166,84 @@ func (c *pollCtx) poll() {
 	if c.fired {
 		return
 	}
-	if c.polls == c.fireAt {
+	if c.polls == c.fireAt || c.forced {
 		c.fired = true
 	}
 	c.polls++
+}
+
+// force cancels the oracle context from outside (a reader's Read): every poll from now on reports done, which is the
+// model's oracle with first_done k for k = the number of polls answered so far.
+func (c *pollCtx) force() {
+	if !c.forced {
+		c.forced = true
+		c.forcedAt = c.polls
+	}
+}
+
+// in-memory sources with their WHOLE method set visible to Parse (Len, Size, ReadByte, ReadRune, Seek, WriteTo, ...): the
+// standard readers embedded in a struct that only overrides Read, to call a hook before its j-th call.
+type readHook struct {
+	calls, at int
+	onAt      func()
+	fired     bool
+	eof       bool
+}
+
+func (h *readHook) before() {
+	if h.calls == h.at && !h.fired {
+		h.fired = true
+		if h.onAt != nil {
+			h.onAt()
+		}
+	}
+	h.calls++
+}
+
+type memStrings struct {
+	*strings.Reader
+	h *readHook
+}
+
+func (m memStrings) Read(p []byte) (int, error) {
+	m.h.before()
+	n, err := m.Reader.Read(p)
+	m.h.eof = m.h.eof || err == io.EOF
+	return n, err
+}
+
+type memBytes struct {
+	*bytes.Reader
+	h *readHook
+}
+
+func (m memBytes) Read(p []byte) (int, error) {
+	m.h.before()
+	n, err := m.Reader.Read(p)
+	m.h.eof = m.h.eof || err == io.EOF
+	return n, err
+}
+
+type memBuffer struct {
+	*bytes.Buffer
+	h *readHook
+}
+
+func (m memBuffer) Read(p []byte) (int, error) {
+	m.h.before()
+	n, err := m.Buffer.Read(p)
+	m.h.eof = m.h.eof || err == io.EOF
+	return n, err
+}
+
+func memReader(kind int, src []byte, h *readHook) (io.Reader, string) {
+	switch kind {
+	case 0:
+		return memStrings{strings.NewReader(string(src)), h}, "struct{*strings.Reader}"
+	case 1:
+		return memBytes{bytes.NewReader(src), h}, "struct{*bytes.Reader}"
+	}
+	return memBuffer{bytes.NewBuffer(append([]byte(nil), src...)), h}, "struct{*bytes.Buffer}"
 }
 
 func (c *pollCtx) Done() <-chan struct{} {
@@ -605,6 +682,36 @@ func checkScript(src []byte) (nBase int, runs int, v violations) {
 			lo, hi := g.bounds(b, w)
 			if r.n < lo || r.n > hi {
 				v.add("%s: %d statements outside the position bounds [%d,%d]", what, r.n, lo, hi)
+			}
+		}
+	}
+
+	// in-memory sources (whole method set visible: Len, Size, WriteTo, ...) whose j-th Read call cancels the context, for every
+	// j up to the Read that returns io.EOF and one more.  The context is the oracle context cancelled from outside, so the
+	// expected result is exactly the oracle run R(k) for k = the polls answered before the cancellation.
+	for kind := 0; kind < 3; kind++ {
+		for j := 0; j < 64; j++ {
+			c := newPollCtx(-1, context.Canceled)
+			h := &readHook{at: j}
+			h.onAt = c.force
+			rd, name := memReader(kind, src, h)
+			r := parseOnce(c, rd)
+			what := fmt.Sprintf("%s cancelling at its Read call %d", name, j)
+			if !h.fired {
+				if !sameResult(r, base) {
+					v.add("%s: never reached, but the result differs from the baseline: %d/%s vs %d/%s", what, r.n, r.class, base.n, base.class)
+				}
+				break
+			}
+			check(what, r, context.Canceled, true, h.eof)
+			k := c.forcedAt
+			if k > polls {
+				k = polls
+			}
+			if want, ok := oracle[k]; ok && r.class != "panic" {
+				if r.n != want.n || r.class != want.class || !isPrefix(r.explains, want.explains) {
+					v.add("%s: cancelled after %d polls, result %d/%s differs from oracle k=%d: %d/%s", what, c.forcedAt, r.n, r.class, k, want.n, want.class)
+				}
 			}
 		}
 	}
